@@ -233,3 +233,6 @@ Fixpoint elog_ok (active : nat) (closed : bool) (l : list eev) : bool :=
   | EEnd :: l' => match active with O => false | S a => elog_ok a closed l' end
   | EClose :: l' => negb closed && Nat.eqb active 0 && elog_ok active true l'
   end.
+
+Definition count_close (l : list eev) : nat :=
+  length (filter (fun e => match e with EClose => true | _ => false end) l).
